@@ -218,6 +218,34 @@ Theorem C09_request_object_typed_nil_refuted : exists r, ro_handler false r = HP
 Proof. eexists. exact ro_typed_nil_panics. Qed.
 Print Assumptions C09_request_object_typed_nil_refuted.
 
+(* (c3) native clients: whatever is registered (https, http loopback, private-use schemes, unparsable entries, in any order
+   and number) and whatever redirect_uri is requested, the redirect stage refuses or accepts; an unregistered URI is accepted
+   exactly when it is a loopback URI and some registered loopback URI has its path and query *)
+Theorem C09_native_redirect_total :
+  forall n : nshape, native_redirect true n = HRefused \/ native_redirect true n = HAccepted.
+Proof. exact native_redirect_total. Qed.
+Print Assumptions C09_native_redirect_total.
+
+Theorem C09_native_unlisted_accept_iff :
+  forall n : nshape, n_listed n = false ->
+    (native_redirect true n = HAccepted <-> n_loopback n && existsb reg_matches (n_regs n) = true).
+Proof. exact native_unlisted_accept_iff. Qed.
+Print Assumptions C09_native_unlisted_accept_iff.
+
+(* seeded regression: equalURI evaluated before the `ok` of HTTPLoopbackOrLocalhost - a private-use scheme in the registration *)
+Theorem C09_native_unguarded_refuted : exists n, native_redirect false n = HPanic.
+Proof. exact native_unguarded_refuted. Qed.
+Print Assumptions C09_native_unguarded_refuted.
+
+(* no client helper hangs: every call returns (the observable CHang - blocked past a watchdog, or blocking the next
+   call on the same instance - is never the model's answer) *)
+Theorem C09_client_returns :
+  forall (rfc3339_ok : string -> bool) (lang_class : string -> nat),
+    (forall h a expect, call rfc3339_ok lang_class true h a expect <> CHang) /\
+    (forall dev tok, device_flow rfc3339_ok lang_class true dev tok <> CHang).
+Proof. exact client_returns. Qed.
+Print Assumptions C09_client_returns.
+
 (* the property predicate holds on the model's answer to every input *)
 Theorem C09_spec_model : forall i : input, spec i (model i) = true.
 Proof. exact spec_model. Qed.
